@@ -317,7 +317,7 @@ pub unsafe extern "C" fn BrotliEncoderCompressStream(
             } else {
                 (&mut [], false)
             };
-            let mut to = Some(0);
+            let mut to = Some((*state_ptr).compressor.total_out_ as usize);
             result = (*state_ptr).compressor.compress_stream(
                 translated_op,
                 &mut *available_in,
